@@ -4,17 +4,18 @@
 # trees do not disturb each other or the main build.  Output: one verdict line per (seeded id, property).
 cd "$(dirname "$0")/.."
 jobs=$1; shift
-mkdir -p /root/work/par
+export TAG=-$$     # one private directory per invocation: concurrent invocations must not share slots
+mkdir -p /root/work/par$TAG
 for k in $(seq 1 $jobs); do
-  rm -rf /root/work/par/lean$k; cp -r lean /root/work/par/lean$k
+  rm -rf /root/work/par$TAG/lean$k; cp -r lean /root/work/par$TAG/lean$k
 done
 printf '%s\n' "$@" | xargs -P $jobs -I{} bash -c '
   slot=$(( ($(echo {} | cksum | cut -d" " -f1) ) ))
   # pick a free slot by lock file
   for k in $(seq 1 '$jobs'); do
-    if mkdir /root/work/par/lock$k 2>/dev/null; then
-      FEMIO_VERIF_LEAN=/root/work/par/lean$k python3 tools/run_seeded.py {} 2>&1 | grep -E "^C[0-9]{2}-[0-9]+ " ; rmdir /root/work/par/lock$k; exit 0
+    if mkdir /root/work/par$TAG/lock$k 2>/dev/null; then
+      FEMIO_VERIF_LEAN=/root/work/par$TAG/lean$k python3 tools/run_seeded.py {} 2>&1 | grep -E "^C[0-9]{2}-[0-9]+ " ; rmdir /root/work/par$TAG/lock$k; exit 0
     fi
   done
   echo "{} NO-SLOT"'
-rm -rf /root/work/par
+rm -rf /root/work/par$TAG
